@@ -429,10 +429,30 @@ class AgentProc(Process):
         ctx = CTX.get(self.parameters['run_id'])
         if ctx is not None:
             ctx.keep.append(self)
+            own = None
+            if ctx.snap and ctx.engine is not None:
+                own = own_compartment(ctx.engine.state, self)
             ctx.rec('invoke', self.name, ctx.now(), timestep, id(self),
-                    copy.deepcopy(states), None)
+                    copy.deepcopy(states), own)
         inc = self.parameters['inc']
         return {'x': inc} if inc else {}
+
+
+def own_compartment(root, process):
+    """(path, {'x':..,'y':..}) of the compartment that holds `process`, read
+    directly from the hierarchy nodes."""
+    def walk(store, path):
+        for k, child in store.inner.items():
+            if child.value is process:
+                vals = {v: store.inner[v].value for v in ('x', 'y')
+                        if v in store.inner}
+                return (path, vals)
+            if child.inner:
+                found = walk(child, path + (k,))
+                if found:
+                    return found
+        return None
+    return walk(root, ())
 
 
 class AgentStep(Step):
